@@ -140,6 +140,9 @@ func stressRun(dur time.Duration, goroutines int, seed uint64, outFile string) i
 			}
 		}
 		invalid := plantAll(cfgs[0], genPlanted(r, 2))
+		if _, err, _ := newMW(invalid); err == nil {
+			invalid = Cfg{} // accepted sequentially too (C04/C08 territory): use the empty configuration, which has no origins
+		}
 		var reqs []Req
 		for _, c := range cfgs {
 			s := probeSuite(c)
@@ -197,9 +200,7 @@ func stressRun(dur time.Duration, goroutines int, seed uint64, outFile string) i
 					fail("Config() matches no configuration of the round: %s", k)
 				}
 			case 7:
-				if err := m.Reconfigure(m.Config()); err != nil {
-					fail("Reconfigure(Config()) failed: %v", err)
-				}
+				m.Reconfigure(m.Config()) // whether Config() is re-accepted is C06's business, not judged here
 			}
 		}
 		stop := time.Now().Add(roundLen)
